@@ -3,7 +3,7 @@
    implementation did at every step (its response, the driver's records when they changed, the contents of
    core.history._samples_cache).  [bad_model] = cases where the model (Model.step) does something else;
    [bad_spec] = cases where the implementation contradicts the specification (Spec.spec_step).
-   Both return  100 * case index + index of the first offending step. *)
+   Both return  100 * case index + index of the first offending step (as Z: unary nat results of this size are slow to build and print). *)
 From QT Require Export C18.Spec.
 Open Scope Z_scope.
 
@@ -34,13 +34,13 @@ Definition case := (config * store * Z * list (request * observation))%type.
 Definition store_agrees (dump : option store) (st : store) : bool :=
   match dump with None => true | Some d => list_eqb sample_eqb d st end.
 
-Fixpoint first_bad_model (cfg : config) (st : state) (steps : list (request * observation)) (i : nat) : option nat :=
+Fixpoint first_bad_model (cfg : config) (st : state) (steps : list (request * observation)) (i : Z) : option Z :=
   match steps with
   | [] => None
   | (r, (resp, dump, c)) :: rest =>
       let '(st', out) := step cfg st r in
       if response_eqb out resp && store_agrees dump (st_store st') && cache_same c (st_cache st')
-      then first_bad_model cfg st' rest (S i) else Some i
+      then first_bad_model cfg st' rest (i + 1) else Some i
   end.
 
 (* tie-tolerant comparison of a slice answer: same length, ascending timestamps, and under every timestamp strictly
@@ -74,8 +74,8 @@ Definition spec_response_ok (strict : bool) (cfg : config) (s : store * Z) (r : 
 Definition store_same_multiset (a b : store) : bool :=
   Nat.eqb (List.length a) (List.length b) && forallb (fun x => Nat.eqb (List.length (filter (sample_eqb x) a)) (List.length (filter (sample_eqb x) b))) a.
 
-Fixpoint first_bad_spec (strict : bool) (cfg : config) (s : store * Z) (steps : list (request * observation)) (i : nat)
-  : option nat :=
+Fixpoint first_bad_spec (strict : bool) (cfg : config) (s : store * Z) (steps : list (request * observation)) (i : Z)
+  : option Z :=
   match steps with
   | [] => None
   | (r, (resp, dump, _)) :: rest =>
@@ -85,23 +85,23 @@ Fixpoint first_bad_spec (strict : bool) (cfg : config) (s : store * Z) (steps : 
                       | None => true
                       | Some d => if strict then list_eqb sample_eqb d (fst s') else store_same_multiset d (fst s')
                       end in
-      if resp_ok && store_ok then first_bad_spec strict cfg s' rest (S i) else Some i
+      if resp_ok && store_ok then first_bad_spec strict cfg s' rest (i + 1) else Some i
   end.
 
-Fixpoint collect (f : case -> option nat) (cases : list case) (i : nat) : list nat :=
+Fixpoint collect (f : case -> option Z) (cases : list case) (i : Z) : list Z :=
   match cases with
   | [] => []
   | c :: rest => match f c with
-                 | Some j => (100 * i + j)%nat :: collect f rest (S i)
-                 | None => collect f rest (S i)
+                 | Some j => (100 * i + j) :: collect f rest (i + 1)
+                 | None => collect f rest (i + 1)
                  end
   end.
 
-Definition bad_model (cases : list case) : list nat :=
+Definition bad_model (cases : list case) : list Z :=
   collect (fun '(cfg, st0, now0, steps) =>
              first_bad_model cfg {| st_store := st0; st_cache := []; st_now := now0 |} steps 0) cases 0.
-Definition bad_spec (cases : list case) : list nat :=
+Definition bad_spec (cases : list case) : list Z :=
   collect (fun '(cfg, st0, now0, steps) => first_bad_spec true cfg (st0, now0) steps 0) cases 0.
 (* for drivers whose order among equal timestamps is unspecified (Redis sets, MongoDB) *)
-Definition bad_spec_relaxed (cases : list case) : list nat :=
+Definition bad_spec_relaxed (cases : list case) : list Z :=
   collect (fun '(cfg, st0, now0, steps) => first_bad_spec false cfg (st0, now0) steps 0) cases 0.
